@@ -1106,6 +1106,13 @@ func closedForms(depths []int) {
 				[3]string{"(a (i 5) (i 5))", "(a (i 5) u)", "(a u u)"}[min(d, 2)], 2},
 			{"discard-then-return", fmt.Sprintf("f := func(n, k) { if n == 0 { return 5 }; if k == 0 { return f(n-1, 1) }; f(n-1, 0) }\nout := f(%d, 1)\n", d), map[bool]string{true: "(i 5)", false: "u"}[d == 0], 2},
 		}
+		// the discard mark belongs to the FRAME: a nested compiled call made by the reused frame (in the last
+		// iteration, before it returns a value) must not clear it (C16-m9: the mark kept in one VM field)
+		cases = append(cases,
+			cf{"discard-survives-nested-call", fmt.Sprintf("seven := func() { return 7 }\nf := func(n) { if n == 0 { return seven() }; f(n-1) }\nout := f(%d)\n", d), map[bool]string{true: "(i 7)", false: "u"}[d == 0], 3},
+			cf{"discard-survives-nested-call-value", fmt.Sprintf("id := func(x) { return x }\nf := func(n) { if n == 0 { v := id(9); return v }; f(n-1) }\nout := f(%d)\n", d), map[bool]string{true: "(i 9)", false: "u"}[d == 0], 3},
+			cf{"discard-survives-nested-closure-call", fmt.Sprintf("f := func(n) { g := func() { return n + 100 }; if n == 0 { return g() }; f(n-1) }\nout := f(%d)\n", d), map[bool]string{true: "(i 100)", false: "u"}[d == 0], 3},
+			cf{"discard-survives-nontail-self-call", fmt.Sprintf("f := func(n, k) { if n == 0 { if k { return 1 + f(0, false) }; return 4 }; f(n-1, k) }\nout := f(%d, true)\n", d), map[bool]string{true: "(i 5)", false: "u"}[d == 0], 3})
 		if d == 1 {
 			// the discard mark belongs to one activation: a later, independent activation returns its value
 			cases = append(cases, cf{"discard-mark-not-sticky",
